@@ -1,8 +1,2 @@
-import PdbVerif.Driver.SpecOps
-open Lean Driver in
-def main : IO Unit := do
-  loop (fun j => do
-    let op ← jStr j "op"
-    match ← specOp op j with
-    | none => .error s!"unknown op {op}"
-    | some s => pure (Json.mkObj [("spec", s)])) (← IO.getStdin) (← IO.getStdout)
+import PdbVerif.Driver.MainSpecOnly
+def main : IO Unit := Driver.mainSpec
